@@ -6,7 +6,7 @@ wt, md = sys.argv[1], sys.argv[2]
 env = dict(os.environ, RUSTUP_TOOLCHAIN="1.88.0", CARGO_NET_OFFLINE="true")
 FLAKY = {"replay_ek1914_no_complete_access", "replay_ek1100_alias_address", "replay_ek1100_el2828_el2889",
          "replay_ek1914_el3004_configure", "replay_issue_255", "replay_dc", "replay_ek1914_el3004_mailbox",
-         "replay_ek1914_segmented_upload", "fuzz_pdi_segment"}
+         "replay_ek1914_segmented_upload", "fuzz_pdi_segment", "large_group_frame_split"}
 def sh(cmd, **kw):
     return subprocess.run(cmd, cwd=wt, env=env, capture_output=True, text=True, shell=isinstance(cmd, str), **kw)
 def clean():
